@@ -210,6 +210,19 @@ fn domain_case(out: &mut Out, rng: &mut Rng) {
     }
 }
 
+fn helper(kind: &str, a: &Bitvector, b: &Bitvector) -> String {
+    let (a, b, k) = (a.clone(), b.clone(), kind.to_string());
+    let r = catch(move || match k.as_str() {
+        "sadd" => a.signed_add_overflow_checked(&b).map(|v| hexval(&v)).unwrap_or("none".into()),
+        "ssub" => a.signed_sub_overflow_checked(&b).map(|v| hexval(&v)).unwrap_or("none".into()),
+        _ => match a.signed_mult_with_overflow_flag(&b) {
+            Ok((v, f)) => format!("{}:{}", hexval(&v), f as u8),
+            Err(_) => "err".into(),
+        },
+    });
+    r.unwrap_or("p".into())
+}
+
 fn parse_hex(s: &str, bits: usize) -> Bitvector {
     let v = u128::from_str_radix(s, 16).expect("hex");
     mk(bits, v as u64, (v >> 64) as u64)
@@ -257,6 +270,10 @@ fn replay(out: &mut Out, line: &str) {
             let a = parse_hex(t[4], t[3].parse().unwrap());
             let (low, size): (u64, u64) = (t[1].parse().unwrap(), t[2].parse().unwrap());
             format!("{} {}", t[..n - 1].join(" "), show(catch(move || Ok(a.subpiece(ByteSize::new(low), ByteSize::new(size))))))
+        }
+        "h" => {
+            let w: usize = t[2].parse().unwrap();
+            format!("{} {}", t[..n - 1].join(" "), helper(t[1], &parse_hex(t[3], w), &parse_hex(t[4], w)))
         }
         "d" => {
             let r = match t[1] {
@@ -344,11 +361,32 @@ fn main() {
                 }
             }
         }
+        // overflow-checked helpers: all one-byte pairs
+        for kind in ["sadd", "ssub", "smul"] {
+            for a in 0..256u64 {
+                for b in 0..256u64 {
+                    let r = helper(kind, &mk(8, a, 0), &mk(8, b, 0));
+                    let line = format!("h {} 8 {:x} {:x} {}", kind, a, b, r);
+                    out.case(&line, Some(&line));
+                }
+            }
+        }
         out.exhaustive = true;
     }
     let n = args.num("samples", 200_000, 5_000_000);
-    for _ in 0..n {
-        single(&mut out, &mut rng);
+    for i in 0..n {
+        if i % 8 == 0 {
+            let w = *rng.pick(&[16usize, 32, 64, 64, 128]);
+            let kind = *rng.pick(&["sadd", "ssub", "smul"]);
+            let a = if rng.chance(1, 6) { mk(w, u64::MAX, u64::MAX) } else { rand_val(&mut rng, w) };
+            let b = rand_val(&mut rng, w);
+            let r = helper(kind, &a, &b);
+            out.count(&format!("helper:{}", kind));
+            let line = format!("h {} {} {} {} {}", kind, w, hexval(&a), hexval(&b), r);
+            out.case(&line, Some(&line));
+        } else {
+            single(&mut out, &mut rng);
+        }
     }
     out.finish();
 }
